@@ -39,6 +39,17 @@ Theorem C07_disturbed_buffered_download : forall (w : cworld) idx sub data size 
   r = Ok tt -> store_get idx sub (n_srv (w_s w')) = Some data.
 Proof. exact disturbed_buffered_download. Qed.
 
+(* A refused or unanswered download initiation ends the transfer (fix 0d5f4b1): when the initiate exchange
+   ends with an SDO error (abort received, time-out - after which request_response has sent its one abort
+   frame -, unexpected response), the world after the whole with-block INCLUDING close() of the discarded
+   stream object is the world right after that exchange: no further frame is put on the bus (w_log is
+   part of the world), whatever the caller or the buffered wrapper tries afterwards. *)
+Theorem C07_failed_initiation_silent : forall (w : cworld) idx sub size force data sched w0 st0 r0,
+  ws_init net_step w idx sub size force = (w0, st0, r0) -> sdo_error r0 ->
+  with_write net_step w idx sub size force data sched = (w0, r0) /\
+  forall ops, replay_write net_step w idx sub size force data ops = (w0, r0).
+Proof. exact (@failed_initiation_silent net net_step). Qed.
+
 (* Upload (SdoClient.upload): for every step k and every disturbance the SDO protocol can tell from
    the genuine response or that leaves it intact ([ul_fault_ok]: lost, request lost, late, abort
    frame, toggle flipped, specifier changed, multiplexer of the initiate response changed,
@@ -153,6 +164,7 @@ Proof. vm_compute. repeat split; try reflexivity. auto 20. Qed.
 
 Print Assumptions C07_disturbed_download.
 Print Assumptions C07_disturbed_buffered_download.
+Print Assumptions C07_failed_initiation_silent.
 Print Assumptions C07_disturbed_upload.
 Print Assumptions C07_disturbed_raw_read.
 Print Assumptions C07_lost_response_aborts_step.
